@@ -44,7 +44,67 @@ def run_case(case, rec):
     run_shard(None, rec)
 
 
+def _cold_concurrent_access(rec):
+    """The process's FIRST access to the catalogue, made by 8 threads at the
+    same moment under injected yields (a lazily built table is raced)."""
+    import random
+    import sys
+    import threading
+    from ..mon import sysmon
+    T = 8
+    barrier = threading.Barrier(T)
+    seen = [None] * T
+
+    def body(t):
+        barrier.wait()
+        from pamqp import exceptions
+        out = {}
+        try:
+            m = exceptions.CLASS_MAPPING
+            for code in sorted(refspec.REPLY_CODES):
+                try:
+                    c = m[code]
+                    out[code] = (c.__name__, getattr(c, 'name', None),
+                                 getattr(c, 'value', None))
+                except KeyError:
+                    out[code] = 'KeyError'
+        except Exception as e:
+            out['error'] = repr(e)
+        seen[t] = out
+
+    old = sys.getswitchinterval()
+    sys.setswitchinterval(1e-6)
+    sysmon.enable_sched(0.2, random.Random(17), plong=0.02)
+    ths = [threading.Thread(target=body, args=(t,), daemon=True)
+           for t in range(T)]
+    for th in ths:
+        th.start()
+    for th in ths:
+        th.join(60)
+    sysmon.disable_sched()
+    sys.setswitchinterval(old)
+    rec.count('cold_concurrent_first_access_threads', T)
+    for t, out in enumerate(seen):
+        rec.ev()
+        bad = [k for k, v in (out or {'error': 'no result'}).items()
+               if v == 'KeyError' or k == 'error'] if out is not None \
+            else ['thread did not finish']
+        for code, (name, hard) in sorted(refspec.REPLY_CODES.items()):
+            if out and isinstance(out.get(code), tuple) and \
+                    (out[code][1], out[code][2]) != (name, code):
+                bad.append(code)
+        if bad:
+            rec.violation('concurrent-first-access',
+                          'thread %d of %d making the first access to the '
+                          'reply-code mapping saw it incomplete or wrong '
+                          'for %r' % (t, T, bad[:6]),
+                          {'fact': 'cold concurrent access'},
+                          observed=out)
+            return
+
+
 def run_shard(shard, rec):
+    _cold_concurrent_access(rec)
     _walk(rec, 'after import')
     _perturb(rec)
     _walk(rec, 'after client code subclassed / raised the exceptions')
